@@ -116,15 +116,38 @@ pub fn guard_walk(rng: &mut Rng) -> Vec<u8> {
     v
 }
 
+/// Boundary values of lol-html's LocalNameHash (5 bits per character, 12 characters, '1' encoded as 0, letters 6..31):
+/// a special tag name prefixed by one letter and a run of one extreme character, 12 / 13 / 14 characters in total.
+/// None of these is a special name, so every one of them must be tokenized as an ordinary element.
+pub fn hash_boundary_name(rng: &mut Rng) -> String {
+    const SPECIAL: &[&str] = &["script", "style", "title", "textarea", "xmp", "iframe", "plaintext", "noembed", "select", "template", "svg", "math", "br", "p", "font", "frameset"];
+    let x = *rng.pick(SPECIAL);
+    let first = *rng.pick(&['a', 'j', 'k', 'l', 'p', 'z']);
+    let fill = *rng.pick(&['1', '6', 'a', 'z']);
+    let total = (*rng.pick(&[12usize, 13, 13, 14])).max(x.len() + 1);
+    let mut s = String::new();
+    s.push(first);
+    for _ in 0..total - 1 - x.len() {
+        s.push(fill);
+    }
+    s.push_str(x);
+    s
+}
+
 fn push_tag(rng: &mut Rng, out: &mut Vec<u8>, kind: SoupKind) {
     let end = rng.chance(2, 5);
     out.push(b'<');
     if end {
         out.push(b'/');
     }
-    let name: &str = match rng.below(10) {
-        0..=2 => *rng.pick(TEXT_MODE_NAMES),
-        3 if kind == SoupKind::Any => *rng.pick(FOREIGN_NAMES),
+    let boundary;
+    let name: &str = match rng.below(16) {
+        0..=4 => *rng.pick(TEXT_MODE_NAMES),
+        5 | 6 if kind == SoupKind::Any => *rng.pick(FOREIGN_NAMES),
+        7 => {
+            boundary = hash_boundary_name(rng);
+            &boundary
+        }
         _ => *rng.pick(HTML_NAMES),
     };
     if rng.chance(1, 6) {
